@@ -303,7 +303,10 @@ impl_handler!(C1, C2, C3, C4, C5, C6, C7, C8, C9);
 
 #[derive(Default)]
 pub struct FunctionRegistry {
+    #[cfg(not(cel_verif_hash))]
     functions: HashMap<String, Function>,
+    #[cfg(cel_verif_hash)]
+    functions: HashMap<String, Function, crate::verif::SimHashState>,
 }
 
 impl FunctionRegistry {
